@@ -1251,7 +1251,7 @@ class SymCtx:
                     return SymX(a)
         return None
 
-    def cancel_explog(self, t):
+    def cancel_explog(self, t, _inner=False):
         """Rewrite EXP(LOG(u)) -> u and LOG(EXP(u)) -> u inside the z3 term t (instances of the stated axioms)."""
         subs = []
         logs = self.uf_apps.get('LOG', [])
@@ -1268,14 +1268,27 @@ class SymCtx:
             if not subs:
                 break
             t = z3.substitute(t, *subs)
+        # EXP(+-LOG(u) +- LOG(v) ...) -> the rational function u^{+-1} v^{+-1} ... (log(a) - log(b) = log(a/b), all LOG
+        # applications live on their x > 0 branch)
+        if not _inner:
+            subs2 = []
+            for a, r in exps:
+                if any(r.eq(x) for x, _ in subs):
+                    continue
+                try:
+                    subs2.append((r, rterm(self.exp_of(SymX(a), _inner=True))))
+                except _NotRational:
+                    pass
+            if subs2:
+                t = z3.substitute(t, *subs2)
         return t
 
-    def exp_of(self, term):
+    def exp_of(self, term, _inner=False):
         """For a term that is a sum of +-LOG(args) (and numerals n*LOG-free parts are not allowed), return the
         rational function P with term == LOG(P), using log(a)+log(b)=log(ab), log(a)-log(b)=log(a/b) (all LOG
         applications were created on their x > 0 branch).  EXP(y) occurring inside arguments stay as they are."""
-        t = _simp(self.cancel_explog(rterm(term)))
-        logs = {str(self.cancel_explog(r)): self.cancel_explog(a) for a, r in self.uf_apps.get('LOG', [])}
+        t = _simp(self.cancel_explog(rterm(term), _inner=True))
+        logs = {str(self.cancel_explog(r, _inner=True)): self.cancel_explog(a, _inner=True) for a, r in self.uf_apps.get('LOG', [])}
         num, den = z3.RealVal(1), z3.RealVal(1)
 
         def walk(u, sign):
